@@ -106,3 +106,31 @@ FROM_SEQ = REG.add(Contract(
     note="add_monomer and the add_node override are executed at the call site; networkx add_node/add_edge/has_node modelled"))
 
 CONTRACTS = [FROM_SEQ]
+
+
+# ---- simple_seq_parsers._monomers_to_linear_nx_graph: the builder behind the .txt / .fasta / .ig readers --------------------------
+from pyvc.types import TNode, TOpt        # noqa: E402
+SATTR = TRec("nodeattrs", resname=TOpt(TNode), resid=TOpt(TInt))
+SEQGRAPH = TGraph(SATTR, key=TInt, ordered=True)
+
+
+def seq_chain(g, monomers):
+    """nodes 0..n-1 inserted in that order, node i named monomers[i] and numbered i + 1, edges exactly between consecutive nodes"""
+    nd = g.fields["nodes"]
+    a = nd.v.unflat([c[i_] for c in nd.comps])
+    n = monomers.n
+    return z3.And(
+        z3.ForAll([i_], z3.Select(nd.dom, i_) == z3.And(0 <= i_, i_ < n)),
+        nd.order.n == n, z3.ForAll([i_], z3.Implies(z3.And(0 <= i_, i_ < n), nd.order.comps[0][i_] == i_)),
+        z3.ForAll([i_], z3.Implies(z3.And(0 <= i_, i_ < n), z3.And(
+            z3.Not(a.fields["resid"].none), a.fields["resid"].val == i_ + 1,
+            z3.Not(a.fields["resname"].none), a.fields["resname"].val == slist_get(monomers, i_)))),
+        z3.ForAll([i_, j_], adj(g, i_, j_) == z3.And(0 <= i_, i_ < n, 0 <= j_, j_ < n, z3.Or(j_ == i_ + 1, i_ == j_ + 1))))
+
+
+REG2 = Registry()
+LINEAR_NX = REG2.add(Contract(
+    "polyply.src.simple_seq_parsers:_monomers_to_linear_nx_graph", params=dict(monomers=TList(TNode)), result=SEQGRAPH,
+    ensures={"exactly the stated residues, numbered consecutively from 1 in input order, connected linearly": "seq_chain(result, monomers)"},
+    locals={"seq_graph": SEQGRAPH}, spec_fns=dict(seq_chain=seq_chain), props=("C12", "C19"),
+    note="networkx calls modelled (Graph(), add_nodes_from(range), add_edges_from(zip of ranges), set_node_attributes); residue names compared only"))
